@@ -714,7 +714,11 @@ func (c *stubConnector) route(ctx context.Context, payload any) error {
 	sort.Slice(ids, func(i, j int) bool { return ids[i].String() < ids[j].String() })
 	var errs error
 	untouched := true // nobody entitled to change `work` has had it so far
-	for gi, grp := range routeSelection(rtMode, len(ids)) {
+	payloadID := ""
+	if its := itemsOf(c.from, work); len(its) > 0 {
+		payloadID = its[0].ID
+	}
+	for gi, grp := range routeSelection(rtEffective(rtMode, payloadID), len(ids)) {
 		sel := make([]pipeline.ID, len(grp))
 		for i, k := range grp {
 			sel[i] = ids[k]
@@ -775,6 +779,21 @@ var rndMatrix [4][4]bool
 // rtMode is how connector type "rt" selects destinations in the current run (see routeSelection).
 var rtMode int
 
+// rtEffective: in mode 7 the selection depends on the payload (its ordinal, taken from the item id "d<n>"): successive
+// payloads through one routing connector ask its router for different selections.
+func rtEffective(mode int, id string) int {
+	if mode < 7 {
+		return mode
+	}
+	n := 0
+	for _, ch := range id {
+		if ch >= '0' && ch <= '9' {
+			n = n*10 + int(ch-'0')
+		}
+	}
+	return []int{5, 4, 8, 0, 6, 3, 9, 1, 2}[n%9]
+}
+
 // routeSelection: the groups of pipelines (by position in the sorted list of n attached pipelines) the routing
 // connector sends to, one router.Consumer(...) call per group, in order.
 func routeSelection(mode, n int) [][]int {
@@ -801,6 +820,20 @@ func routeSelection(mode, n int) [][]int {
 			out = append(out, []int{i})
 		}
 		return out
+	case mode == 8 && n >= 3:
+		// first and last together (not neighbours in the sorted list), then the ones in between singly
+		out := [][]int{{0, n - 1}}
+		for _, i := range all[1 : n-1] {
+			out = append(out, []int{i})
+		}
+		return out
+	case mode == 9 && n >= 2:
+		// everything, named in descending order
+		rev := make([]int, n)
+		for i := range rev {
+			rev[i] = n - 1 - i
+		}
+		return [][]int{rev}
 	case mode == 6 && n >= 3:
 		// the larger group last: singles first, then everything else together
 		return [][]int{{n - 1}, all[:n-1]}
